@@ -1717,6 +1717,17 @@ impl proto::Peer for Peer {
 
         b = b.version(Version::HTTP_2);
 
+        if pseudo.method.is_some()
+            || pseudo.scheme.is_some()
+            || pseudo.authority.is_some()
+            || pseudo.path.is_some()
+            || pseudo.protocol.is_some()
+        {
+            // Request pseudo-header fields make a response malformed.
+            tracing::debug!("malformed headers: request pseudo-header in response");
+            return Err(Error::library_reset(stream_id, Reason::PROTOCOL_ERROR));
+        }
+
         if let Some(status) = pseudo.status {
             b = b.status(status);
         }
